@@ -181,7 +181,7 @@ def rvalue(v):
     raise ValueError(k)
 
 
-BINFMT = {"plus": "%s plus %s", "minus": "%s minus %s", "mal": "%s mal %s", "durch": "%s durch %s", "mod": "%s modulo %s",
+BINFMT = {"plus": "%s plus %s", "minus": "%s minus %s", "mal": "%s mal %s", "durch": "%s durch %s", "mod": "%s modulo %s", "pow": "%s hoch %s",
           "and": "%s und %s", "or": "%s oder %s", "xor": "entweder %s, oder %s", "eq": "%s gleich %s ist", "ne": "%s ungleich %s ist",
           "lt": "%s kleiner als %s ist", "le": "%s kleiner als, oder %s ist", "gt": "%s größer als %s ist", "ge": "%s größer als, oder %s ist",
           "cat": "%s verkettet mit %s", "idx": "%s an der Stelle %s", "band": "%s logisch und %s", "bor": "%s logisch oder %s", "bxor": "%s logisch kontra %s",
